@@ -221,3 +221,106 @@ def c16_clonecore(R):
         f"came back empty on both sides although c1 alone is unsatisfiable",
         construct="_unsat_core: which half of a tracked assertion is looked up in the core",
     )
+
+
+@rule(
+    "C16.trackname",
+    props=("C16", "C11"),
+    floor=1,
+    family="GRD",
+    desc="BackendZ3._add leaves a tracked constraint unasserted only after comparing *formulas* (structural .eq): the "
+    "names constraints are tracked under come from Z3's 32-bit AST hash, which collides",
+)
+def c16_trackname(R):
+    tree = R.tree
+    m = tree.mod(Z3B)
+    fn = tree.func_inlined(Z3B, "BackendZ3._add")
+    calls = [c for c in walk_no_nested(fn) if isinstance(c, ast.Call) and isinstance(c.func, ast.Attribute) and c.func.attr == "assert_and_track"]
+    R.need(len(calls) >= 1, "_add no longer asserts tracked constraints with assert_and_track")
+    for c in calls:
+        loop = getattr(c, "_parent", None)
+        while loop is not None and not isinstance(loop, (ast.For, ast.FunctionDef)):
+            loop = getattr(loop, "_parent", None)
+        inner = [t for t, pol in guards.guards_of(c, stop=loop)] if isinstance(loop, ast.For) else []
+        if not inner:
+            R.ok(m, c, "every tracked constraint is asserted")
+            continue
+        var = {x.id for x in ast.walk(loop.target) if isinstance(x, ast.Name)}
+        eqs = [
+            k
+            for k in ast.walk(loop)
+            if isinstance(k, ast.Call)
+            and isinstance(k.func, ast.Attribute)
+            and k.func.attr == "eq"
+            and (any(isinstance(x, ast.Name) and x.id in var for a in k.args for x in ast.walk(a)) or any(isinstance(x, ast.Name) and x.id in var for x in ast.walk(k.func.value)))
+        ]
+        R.check(
+            bool(eqs),
+            m,
+            c,
+            "a constraint is skipped only as the same formula",
+            f"BackendZ3._add asserts a tracked constraint only under `{' and '.join(ast.unparse(t)[:50] for t in inner)}` and never "
+            f"compares the formula itself: the name is Z3's 32-bit AST hash, x + y == 643 and x + y == 3839 share one, the second "
+            f"was never asserted and a tracked solver answered satisfiable with an empty core",
+            construct="_add: tracked constraint skipped by name alone",
+        )
+
+
+FF = "claripy/frontend/full_frontend.py"
+
+
+@rule(
+    "C16.owncore",
+    props=("C16",),
+    floor=1,
+    family="DEP",
+    desc="what FullFrontend.unsat_core returns for an unsatisfiable set is drawn from the solver's own constraints (it depends "
+    "on self.constraints): the backend alone recognises tracked formulas through a process-wide cache that downsize() "
+    "empties and other solvers overwrite",
+)
+def c16_owncore(R):
+    tree = R.tree
+    m = tree.mod(FF)
+    fn = tree.func(FF, "FullFrontend.unsat_core")
+    nested = {n.name: n for n in ast.walk(fn) if isinstance(n, (ast.FunctionDef, ast.Lambda)) and n is not fn and hasattr(n, "name")}
+    assigns = {}
+    for n in ast.walk(fn):
+        if isinstance(n, ast.Assign):
+            for t in n.targets:
+                for x in ast.walk(t):
+                    if isinstance(x, ast.Name):
+                        assigns.setdefault(x.id, []).append(n.value)
+    n_ret = 0
+    for r in ast.walk(fn):
+        if not (isinstance(r, ast.Return) and r.value is not None):
+            continue
+        owner = getattr(r, "_parent", None)
+        while owner is not None and not isinstance(owner, (ast.FunctionDef, ast.Lambda)):
+            owner = getattr(owner, "_parent", None)
+        if owner is not fn:
+            continue
+        if isinstance(r.value, (ast.Tuple, ast.List)) and not r.value.elts:
+            continue  # satisfiable: the empty core
+        n_ret += 1
+        seen, work, dep = set(), [r.value], False
+        while work:
+            e = work.pop()
+            for x in ast.walk(e):
+                if isinstance(x, ast.Attribute) and ast.unparse(x) == "self.constraints":
+                    dep = True
+                if isinstance(x, ast.Name) and x.id not in seen:
+                    seen.add(x.id)
+                    work.extend(assigns.get(x.id, []))
+                    if x.id in nested:
+                        work.extend(nested[x.id].body)
+        R.check(
+            dep,
+            m,
+            r,
+            "the core is matched against the solver's own constraints",
+            f"FullFrontend.unsat_core returns `{norm(r.value)[:80]}`, which does not depend on self.constraints: after "
+            f"claripy.backends.z3.downsize() the core of [x >=s 5, x + y <= 3, y == 0 (annotated)] came back as 5 <=s x, .., 0 == y "
+            f"without the annotation, and a second tracked solver holding the same formulas decided which annotations were reported",
+            construct="unsat_core: core elements drawn from self.constraints",
+        )
+    R.need(n_ret >= 1, "FullFrontend.unsat_core: no return of a core found")
